@@ -57,7 +57,13 @@ def ac_sig(w, v):
         elif isinstance(p, (tuple, list)):
             p = tuple(repr(x) if not w.is_node(x) else ac_sig(w, x) for x in p)
         elif isinstance(p, AObj):
-            p = w.to_str(p) if not w.is_node(p) else ac_sig(w, p)
+            if w.is_node(p):
+                p = ac_sig(w, p)
+            else:
+                try:
+                    p = str(w.sort_of_tyobj(p))
+                except Exception:
+                    p = ("obj", p.cls)
         return (op, tuple(kids), repr(p))
     if isinstance(v, (list, tuple)):
         return tuple(ac_sig(w, x) for x in v)
@@ -69,7 +75,7 @@ def ac_sig(w, v):
         if v.cls.endswith(".Theory") or v.cls.endswith(".Logic"):
             return (v.cls, tuple(sorted((k, repr(x)) for k, x in v.attrs.items() if isinstance(x, (bool, int, str, type(None))))))
         try:
-            return ("obj", v.cls, w.to_str(v))
+            return ("obj", v.cls, str(w.sort_of_tyobj(v)))
         except Exception:
             return ("obj", v.cls)
     return v
@@ -129,7 +135,14 @@ def _history_shapes():
                ("LT", ("Plus", ("Minus", ("lit", 5, INT), x), ("lit", 3, INT)), y), ("And", o, ("Not", ("And", b, o))), ("Implies", ("Iff", a, b), ("Ite", c, lt, ("Not", lt))),
                ("forall", [("a", BOOL)], ("Or", a, ("And", b, lt))), ("Equals", ("Times", ("lit", 2, INT), ("Plus", x, y)), ("Minus", z, x))]
     five, three_ = ("lit", 5, INT), ("lit", 3, INT)
-    history = [("LT", ("lit", -3, INT), ("lit", 7, INT)), ("Or", kw1, ("Not", kw2)), ("Plus", ("Minus", five, x), three_), ("Plus", ("Minus", ("Plus", x, y), z), ("lit", 1, INT)),
+    # two stores over one array value, printing of that value: helpers that hand out a description of a node must
+    # hand out a fresh one
+    AV = ("Array", ("type", INT), ("lit", 0, INT), ("dict", (("lit", 1, INT), ("lit", 5, INT))))
+    marr = S("marr", ("ARRAY", INT, INT))
+    targets += [("Equals", ("Store", AV, three_, ("lit", 30, INT)), marr),
+                ("Equals", ("Select", ("Store", AV, three_, ("lit", 30, INT)), ("lit", 2, INT)), x),
+                ("Equals", AV, marr)]
+    history = [("Store", AV, ("lit", 2, INT), ("lit", 20, INT)), ("Equals", ("Store", AV, ("lit", 2, INT), ("lit", 20, INT)), marr),("LT", ("lit", -3, INT), ("lit", 7, INT)), ("Or", kw1, ("Not", kw2)), ("Plus", ("Minus", five, x), three_), ("Plus", ("Minus", ("Plus", x, y), z), ("lit", 1, INT)),
                o, ("And", b, o), ("Not", lt), ("Plus", x, y), ("Iff", a, b), ("Or", ("And", b, lt), c),
                ("exists", [("b", BOOL)], ("And", b, lt)), ("LE", ("Plus", x, y), ("lit", 0, INT)), ("And", a, ("Not", a))]
     return targets, history
